@@ -102,7 +102,10 @@ class C15(Prop):
             "ascending with repeats, 15% shuffled) and 1..10 record/record_many operations (batches of 0..6) whose samples are bounds, "
             "their neighbours, pool values or NaN, observed after every operation. D: 0..6 overrides (Full/Prefix/Suffix, patterns cut "
             "from the name raw or pre-sanitised, or random segments incl. digits, non-ASCII), optional global buckets, one name, through "
-            "DistributionBuilder directly or through PrometheusBuilder+render. R: bucket_count 1..5, duration in {1,2,5,7,10}ns, 1..14 "
+            "DistributionBuilder directly or through PrometheusBuilder+render; the render configuration is a product of independent dimensions: "
+            "unit suffix on/off x described with no unit / count (no suffix) / percent (suffix ratio) / a unit whose suffix is its name x global "
+            "buckets or none x metric name ending in the unit suffix or not x per override kind x target (metric name, suffixed family name, "
+            "common prefix, neither, repeat); the distribution over these dimensions is written to the evidence (config_distribution). R: bucket_count 1..5, duration in {1,2,5,7,10}ns, 1..14 "
             "add/snapshot operations with time steps on and around bucket and window edges (10% of cases with a backward step). "
             "Q: one quantile (a 30-value list incl. 0, 1, out-of-range, -0.0, NaN, +-inf, 0.29, 0.57, 1e-7, or k/1000, k/100000). "
             "Non-trivial = at least one operation / override; distinct = distinct (case, output)")
@@ -115,7 +118,9 @@ class C15(Prop):
                   "agree (C15_batch_equals_single). Overrides: the DistributionBuilder model (HashMap insert of sanitised matchers, sort by the "
                   "derived Ord, first match) equals a sort-free specification (C15_override_model_meets_spec); the winner is the least applying "
                   "matcher in the derived Ord Full < Prefix < Suffix then pattern, with the bounds of the last override filed under it, else global, "
-                  "else summary (C15_override_precedence); Matcher::matches = Spec.applies; type says histogram iff a histogram is built; prefix / "
+                  "else summary (C15_override_precedence); Matcher::matches = Spec.applies; type says histogram iff a histogram is built; in the model of "
+                  "Inner::render, for every unit-suffix configuration, TYPE says histogram iff buckets apply to the METRIC name iff bucket series are "
+                  "rendered (C15_exposed_as_histogram_iff_buckets_apply); prefix / "
                   "full / suffix (incl. whole-name) soundness after sanitisation; the pre-fix suffix rule refuted. Rolling summary: for every history "
                   "with non-decreasing timestamps the invariant (buckets descending and >= dur apart, <= n, each holding exactly the finite samples "
                   "of its [begin, begin+dur)) holds, a snapshot contains no sample older than now-n*dur and every sample >= now-n*dur+dur (also as "
@@ -175,28 +180,71 @@ class C15(Prop):
     def gen_name(self, rng):
         return "".join(rng.pick(SEGS) for _ in range(rng.range(1, 4)))
 
+    UNITS = ["count", "percent", "seconds", "milliseconds", "microseconds", "nanoseconds", "tebibytes", "gibibytes", "mebibytes",
+             "kibibytes", "bytes", "terabits_per_second", "gigabits_per_second", "megabits_per_second", "kilobits_per_second",
+             "bits_per_second", "count_per_second"]
+
+    @staticmethod
+    def unit_suffix(u):
+        return None if u in (None, "count") else "ratio" if u == "percent" else u
+
+    @staticmethod
+    def py_matches(kind, pat, key):
+        """Matcher::sanitized + Matcher::matches (after the fix) on an already sanitised key; used for coverage statistics only"""
+        if kind == "F":
+            return key == sanitize(pat)
+        if kind == "P":
+            return key.startswith(sanitize(pat))
+        return key.endswith(sanitize("_" + pat)[1:]) or key == sanitize(pat)
+
+    def bare_pattern(self, rng, kind, name):
+        if kind == "F":
+            pat = name
+        elif kind == "P":
+            pat = name[:rng.range(0, len(name))]
+        else:
+            pat = name[rng.range(0, len(name)):]
+        m = rng.below(4)
+        if m == 0:
+            pat = sanitize(pat)
+        elif m == 1 and kind == "S":
+            pat = sanitize("_" + pat)[1:]
+        return pat
+
     def gen_dist(self, rng):
+        """The builder configuration is a product of independent dimensions: sanitising path or direct; unit suffix on/off;
+        described with a unit (no suffix / renamed suffix / suffix = unit name) or not; global buckets or none; metric name
+        ending in the unit suffix or not; and per override: kind x target (bare metric name, suffixed family name, a prefix
+        common to both, neither)."""
         san = 1 if rng.chance(3, 5) else 0
+        usfx = 1 if rng.chance(1, 2) else 0
+        unit = rng.weighted([(6, None), (2, "count"), (4, "percent"), (6, "seconds"), (2, "bytes"), (1, "milliseconds"),
+                             (1, "count_per_second"), (1, "bits_per_second"), (2, rng.pick(self.UNITS))])
+        sfx = self.unit_suffix(unit) or self.unit_suffix(rng.pick(self.UNITS[1:]))   # the (potential) suffix patterns aim at
         name = self.gen_name(rng)
         if rng.chance(1, 6):
             name = sanitize(name)
+        if rng.chance(1, 5):
+            name = name + "_" + sfx                # the metric name itself already ends in the unit suffix
+        fam = sanitize(name) + "_" + sfx
+        glob = [hx(100.0)] + ([hx(200.0)] if rng.chance(1, 2) else []) if rng.chance(2, 5) else None
         ovs = []
-        for i in range(rng.weighted([(1, 0), (2, 1), (3, 2), (3, 3), (2, 4), (1, 6)])):
+        for i in range(rng.weighted([(1, 0), (3, 1), (3, 2), (3, 3), (2, 4), (1, 6)])):
             kind = rng.pick("FPS")
-            r = rng.below(10)
-            if r < 6:
+            target = rng.pick(["bare", "bare", "family", "family", "common", "neither", "repeat"])
+            if target == "bare":
+                pat = self.bare_pattern(rng, kind, name)
+            elif target == "family":
+                ln = len(sanitize(name))
                 if kind == "F":
-                    pat = name
+                    pat = fam
                 elif kind == "P":
-                    pat = name[:rng.range(0, len(name))]
+                    pat = fam[:rng.range(ln + 1, len(fam))]
                 else:
-                    pat = name[rng.range(0, len(name)):]
-                m = rng.below(4)
-                if m == 0:
-                    pat = sanitize(pat)
-                elif m == 1 and kind == "S":
-                    pat = sanitize("_" + pat)[1:]
-            elif r < 8 and ovs:
+                    pat = rng.pick(["_" + sfx, sfx, sfx[rng.range(0, len(sfx) - 1):], fam[rng.range(0, ln):]])
+            elif target == "common":
+                pat = sanitize(name)[:rng.range(0, len(name))] if kind != "S" else sfx[rng.range(0, len(sfx) - 1):]
+            elif target == "repeat" and ovs:
                 pat = ovs[rng.below(len(ovs))][1]
             else:
                 pat = self.gen_name(rng)
@@ -204,12 +252,46 @@ class C15(Prop):
                     pat = pat[:rng.range(0, len(pat))]
             b = [hx(float(i + 1))] + ([hx(i + 1.5)] if rng.chance(1, 3) else [])
             ovs.append([kind, pat, b])
-        glob = [hx(100.0)] + ([hx(200.0)] if rng.chance(1, 2) else []) if rng.chance(2, 5) else None
-        if rng.chance(1, 10):
-            name_q = sanitize(name) if san == 0 else name
-        else:
-            name_q = name
-        return dict(k="D", san=san, glob=glob, name=name_q, ovs=ovs)
+        if san == 0:
+            # DistributionBuilder used directly: no unit suffix, no description; the key is what a recorder would pass
+            usfx, unit = 0, None
+            if rng.chance(1, 10):
+                name = sanitize(name)
+        return dict(k="D", san=san, glob=glob, name=name, ovs=ovs, usfx=usfx, unit=unit)
+
+    def config_stats(self, cases):
+        """distribution of the generated override/render cases over the configuration dimensions (for the evidence file)"""
+        st = dict(render_cases=0, unit_suffix_on=0, described_none=0, described_no_suffix=0, described_renamed_suffix=0,
+                  described_same_suffix=0, global_buckets=0, family_name_differs=0, suffix_x_unit_x_overrides_x_noglobal=0,
+                  type_differs_if_family_name_were_used=0)
+        ov = {}
+        for c in cases:
+            if c["k"] != "D" or not c["san"]:
+                continue
+            st["render_cases"] += 1
+            u, usfx = c.get("unit"), c.get("usfx", 0)
+            st["unit_suffix_on"] += usfx
+            st["described_none" if u is None else "described_no_suffix" if u == "count" else
+               "described_renamed_suffix" if u == "percent" else "described_same_suffix"] += 1
+            st["global_buckets"] += c["glob"] is not None
+            key = sanitize(c["name"])
+            sfx = self.unit_suffix(u) if usfx else None
+            fam = key + "_" + sfx if sfx else key
+            st["family_name_differs"] += fam != key
+            st["suffix_x_unit_x_overrides_x_noglobal"] += bool(fam != key and c["ovs"] and c["glob"] is None)
+            # classification against the POTENTIAL family name, independent of the switches
+            psfx = self.unit_suffix(u)
+            pfam = key + "_" + psfx if psfx else key
+            a_key = a_fam = False
+            for k, p, _ in c["ovs"]:
+                mk, mf = self.py_matches(k, p, key), self.py_matches(k, p, pfam)
+                cls = "both" if mk and mf else "metric_name_only" if mk else "family_name_only" if mf else "neither"
+                ov[KINDS[k][1:] + ":" + cls] = ov.get(KINDS[k][1:] + ":" + cls, 0) + 1
+                a_key |= mk
+                a_fam |= self.py_matches(k, p, fam)
+            st["type_differs_if_family_name_were_used"] += bool(c["glob"] is None and a_key != a_fam)
+        st["overrides_by_kind_and_target"] = dict(sorted(ov.items()))
+        return st
 
     RVALS = [1.0, 2.5, 1000.0, 0.001, 1e6, -3.0, 0.0, 42.0, 7.25, -1000.5, 0.5]
 
@@ -261,7 +343,13 @@ class C15(Prop):
         for i in range(n):
             k = i % 10
             cases.append(self.gen_quant(rng) if k == 9 else self.gen_hist(rng) if k % 3 == 0 else self.gen_dist(rng) if k % 3 == 1 else self.gen_roll(rng))
+        if getattr(self, "_stats", None) is None:
+            self._stats = self.config_stats(cases)
         return cases
+
+    def extra_checks(self, ctx):
+        ctx["coverage"]["config_distribution"] = getattr(self, "_stats", None)
+        return []
 
     # ------------------------------------------------------------------ implementation side
     def impl_line(self, c):
@@ -275,7 +363,8 @@ class C15(Prop):
             return "H %s | %s" % (",".join(c["bounds"]) if c["bounds"] else "-", " ".join(toks))
         if c["k"] == "D":
             toks = ["%s:%s:%s" % (k, p.encode("utf-8").hex(), ",".join(b)) for k, p, b in c["ovs"]]
-            return "D %d %s %s | %s" % (c["san"], ",".join(c["glob"]) if c["glob"] else "-", c["name"].encode("utf-8").hex(), " ".join(toks))
+            return "D %d %s %s %d %s | %s" % (c["san"], ",".join(c["glob"]) if c["glob"] else "-", c["name"].encode("utf-8").hex() or "-",
+                                              c.get("usfx", 0), c.get("unit") or "-", " ".join(toks))
         if c["k"] == "Q":
             return "Q " + c["q"]
         toks = [("A%d:%s" % (o[1], o[2])) if o[0] == "A" else ("P%d" % o[1]) for o in c["ops"]]
@@ -295,10 +384,11 @@ class C15(Prop):
                 snaps.append([[int(x) for x in cs.split(",")] if cs else [], int(cnt), sm])
             return dict(bounds=bounds, snaps=snaps)
         if c["k"] == "D":
-            ty, d = line.split(" ", 1)
-            if ty not in ("h", "s") or not (d == "S" or d.startswith("H:")):
+            parts = line.split(" ")
+            if len(parts) != 3 or parts[0] not in ("h", "s") or not (parts[1] == "S" or parts[1].startswith("H:")):
                 return dict(panic="unparsable: " + line[:200])
-            return dict(ty=ty, d=None if d == "S" else d[2:].split(","))
+            ty, d, fam = parts
+            return dict(ty=ty, d=None if d == "S" else d[2:].split(","), fam="" if fam == "-" else bytes.fromhex(fam).decode("utf-8"))
         if c["k"] == "Q":
             v, l, fc, fd = line.split()
             un = lambda h: "" if h == "-" else bytes.fromhex(h).decode("utf-8")
@@ -319,8 +409,9 @@ class C15(Prop):
             return "(chist %s %s)" % (cq_fl(c["bounds"]), cq_list(ops))
         if c["k"] == "D":
             ovs = ["((%s, %s), %s)" % (KINDS[k], cq_str(p), cq_fl(b)) for k, p, b in c["ovs"]]
-            return "(cdist true %s %s %s %s)" % (cq_bool(c["san"]), cq_opt(None if c["glob"] is None else cq_fl(c["glob"])),
-                                                 cq_str(c["name"]), cq_list(ovs))
+            return "(cdist true %s %s %s %s %s %s)" % (cq_bool(c["san"]), cq_opt(None if c["glob"] is None else cq_fl(c["glob"])),
+                                                       cq_str(c["name"]), cq_list(ovs), cq_bool(c.get("usfx", 0)),
+                                                       cq_opt(None if c.get("unit") is None else cq_str(c["unit"])))
         if c["k"] == "Q":
             return "(cquant %s %s %s)" % (cq_f(c["q"]), cq_str(c["fc"]), cq_str(c["fd"]))
         ops = [("radd %s %s" % (cq_N(o[1]), cq_f(o[2]))) if o[0] == "A" else ("rsnap %s" % cq_N(o[1])) for o in c["ops"]]
@@ -335,7 +426,7 @@ class C15(Prop):
             snaps = ["(%s, %s, %s)" % (cq_list([cq_N(x) for x in cs]), cq_N(cnt), cq_f(sm)) for cs, cnt, sm in o["snaps"]]
             return "(ohist %s %s)" % (cq_fl(o["bounds"]), cq_list(snaps))
         if c["k"] == "D":
-            return "(odist %s %s)" % (cq_bool(o["ty"] == "h"), cq_opt(None if o["d"] is None else cq_fl(o["d"])))
+            return "(odist %s %s %s)" % (cq_bool(o["ty"] == "h"), cq_opt(None if o["d"] is None else cq_fl(o["d"])), cq_str(o["fam"]))
         if c["k"] == "Q":
             return "(oquant %s %s %s %s)" % (cq_f(o["v"]), cq_str(o["label"]), cq_str(o["fc"]), cq_str(o["fd"]))
         xs = []
@@ -369,6 +460,8 @@ class C15(Prop):
                 cands.append(dict(c, ovs=ovs[:i] + ovs[i + 1:]))
             if c["glob"] is not None:
                 cands.append(dict(c, glob=None))
+            if c.get("unit") not in (None, "seconds"):
+                cands.append(dict(c, unit="seconds"))
             for i in range(len(name)):
                 if len(name) > 1:
                     cands.append(dict(c, name=name[:i] + name[i + 1:]))
